@@ -67,6 +67,9 @@ std::vector<int> minusTids(const std::vector<int>& a, const std::vector<int>& b)
 // samples in a row.
 bool allAsleep(const std::vector<int>& workerTids);
 bool waitAllParked(dispenso::ThreadPool& pool, const std::vector<int>& workerTids, double guardSeconds = 30.0);
+// Waits for a flag set by a task. Gives up (false) when the pool is demonstrably parked again with the
+// flag unset (three samples 100 ms apart), or after the guard.
+bool waitFlagOrStranded(std::atomic<int>& flag, dispenso::ThreadPool& pool, const std::vector<int>& workerTids, double guardSeconds = 30.0);
 J poolJson(dispenso::ThreadPool& pool);
 
 constexpr uint32_t kHourUs = 3600u * 1000000u; // fits the pool's 32-bit microsecond field
